@@ -633,7 +633,7 @@ impl Mon {
             let msg = crate::sched::LAST_PANIC.lock().map(|g| g.clone()).unwrap_or_default();
             self.hit("C20", format!("a worker panicked and never reached its next scheduling point: {} [{}]", line, msg));
         } else {
-            self.hit("C20", format!("an actor did not reach its next scheduling point within 30 s: {}", line));
+            self.hit("C20", format!("an actor did not reach its next scheduling point in time: {}", line));
         }
     }
 
